@@ -224,7 +224,7 @@ Print Assumptions html_template_rawtext_converse.
    end tags with any HTML whitespace before '>'; the raw-text elements style, title, textarea, xmp, iframe, script in any ASCII case with
    attributes, non-empty content that contains no "</" (script: also no "<!--", or content with "<!--" sections for
    which the double-escape rules designate the element's end tag: WfDoc.script_content), and their end tag; plaintext with
-   everything after its tag (last item); bogus comments "<?…>", "<!…>" (not starting with "--", "[CDATA[", 'd', 'D')
+   everything after its tag (last item); bogus comments "<?…>", "<!…>" (not starting with "--", "[CDATA[" or "doctype" in any ASCII case)
    and "</" + non-letter "…>"; svg / math / xml subtrees whose inside is accepted by Wf.xml_wf: read as tags and
    character data, quotes count only inside tags (attribute values may contain '>', "</svg>" and the other quote),
    character data may contain quotes, nested tags and end tags of other elements, comments / processing
@@ -235,7 +235,7 @@ Print Assumptions html_template_rawtext_converse.
    end-of-input report.  [observe] reads type, token bytes, Text() and (for attributes) AttrVal() after each call.
    NOT covered by this theorem (correspondence + Go oracle only): raw
    content that is empty or contains "</" (html_rawtext_never_markup says where such content ends), svg/math whose
-   comments / CDATA contain "</svg" (there the code deviates: html_svg_comment_endtag_refuted), "<!d…>" bogus comments, unterminated constructs, text containing a '<' that opens nothing, names containing '/', templates. *)
+   comments / CDATA contain "</svg" (there the code deviates: html_svg_comment_endtag_refuted), unterminated constructs, text containing a '<' that opens nothing, names containing '/', templates. *)
 Theorem html_wellformed_tokens_partial :
   forall items, wf_doc items ->
     exists tr, run no_tmpl (length (doc_obs items) + 1) (new_lexer (doc_bytes items)) = Ok tr /\
